@@ -597,3 +597,50 @@ def c15(a):
     v.sample({"text": "a + b * a + 4 * c", "clones": [1, 0, 0]})
     v.assumptions.append("all data types: decided for the clone-counting free algebra; the scan touches T only through Clone and mem::take")
     return v.finish()
+
+
+@register("C04")
+def c04(a):
+    v = Verdict("C04", a.tier, "model_checking")
+    what = "variables are not found/ordered/bound as documented"
+    q = a.tier == "quick"
+    tag = "C04/mcvars"
+    cfg = work(tag + ".cfg")
+    write_cfg(cfg, {"MaxNames": 3 if q else 4, "Emit": True}, invariants=["SpecOk", "EmitCases"])
+    res, summ, obsp = pipeline.gen_replay_shard("MC_Vars", cfg, tag, ["vars", "--extra", "2"], workers=16)
+    if res.violated or res.error:
+        print(res.out[-3000:])
+        raise vlib.ToolError(f"MC_Vars: {res.violated or res.error} - spec bug")
+    v.add_tlc(res, "MC_Vars")
+    v.cov["traces_validated_against_impl"] += summ["runs"]
+    v.cov["evaluations"] += summ["runs"]
+    if summ["forwarded"]:
+        simple_judged(v, "C04/jvars", obsp, "Judge_Vars", what)
+    v.notes.append(f"direction A: {summ['cases']} texts over a 13-name pool (order-stressing ASCII/Greek names, names that only exist in "
+                   f"braces, bare and braced spellings, repetition) x 5 forms (flat, uncompiled, deep, flat-from-deep, deep-from-flat) x "
+                   f"eval/eval_relaxed/eval_vec/eval_iter x every slice length 0..n+2 = {summ['runs']} evaluations")
+    n = 48 if q else 480
+    jobs = []
+    for k in range(8):
+        t2 = f"C04/fuzz-mixed-{k}"
+        jobs.append(lambda t2=t2, k=k: (t2,) + pipeline.fuzz_replay(
+            t2, ["fuzz-expr", "--family", "mixed", "--n", str(n // 8), "--stream", str(10 + k), "--max-operands", "70"],
+            ["--forward-all", "--extra", "2"], mode="vars"))
+    good = []
+    for t2, s2, p2 in parallel(jobs):
+        if s2.get("crashed"):
+            v.violation({"pipeline": t2, "detail": s2}, f"{what}: the library aborted the recorder process in {t2}")
+        else:
+            good.append((t2, p2))
+            v.cov["traces_validated_against_impl"] += s2["runs"]
+            v.cov["evaluations"] += s2["runs"]
+    parallel([(lambda t2=t2, p2=p2: simple_judged(v, t2, p2, "Judge_Vars", what)) for t2, p2 in good], 8)
+    v.notes.append("direction B: random expressions with 0..40 variables (beyond the 16 inline slots), names incl. Greek and arbitrary "
+                   "brace contents (blanks, digits, emoji, operator look-alikes, commas), 1..many occurrences; all slice lengths")
+    v.notes.append("derived expressions (sorted union after operator application / substitution, derivative keeps the list) are judged "
+                   "by the calculus checks C09, C10, C11 on every recorded step")
+    v.cov["rule"] = "all name sequences up to length L over the pool x bare/braced; non-trivial = at least one variable"
+    v.cov["distinct_nontrivial"] = summ["cases"]
+    v.cov["exhaustive"] = True
+    v.sample({"text": "{ a} + B * a1 + {a}", "vars": [" a", "B", "a", "a1"]})
+    return v.finish()
